@@ -23,6 +23,7 @@ From FT Require Import Base.Dict Model.Edit Model.EditExec Proofs.DictLemmas Pro
 From FT Require Proofs.EditWalk.
 From FT Require Gen.History_gen Proofs.HistoryGen Props.C02.
 From FT Require Proofs.EditBook Proofs.EditUAN Proofs.EditInverseNode.
+From FT Require Proofs.HistoryGeneric Proofs.EditSessions.
 Import ListNotations.
 Open Scope Z_scope.
 
@@ -278,6 +279,22 @@ Theorem C01_consistent_add_node : forall st n a px force act st',
   user_add_node_core st n a px force = Ok act st' -> TrI W_dict act st st'.
 Proof. exact EditInverseNode.C01_user_add_node_consistent. Qed.
 
+(* ---- whole sessions: with undo / redo interleaved with edge / node edits in any order and number, the
+        state after each call is observably the state under the cursor of the list+cursor timeline - every
+        undo shows the state before the undone edit, every redo the state after it, also after new edits
+        were made in between (statement and hypotheses: C02_sessions_timeline). ---- *)
+Theorem C01_sessions : forall st0 ops,
+  forallb EditSessions.session_fragment ops = true ->
+  WF st0 -> EditSessions.reg_ok st0 -> EditBook.rp_disjoint st0 ->
+  undo_stack st0 = [] -> redo_stack st0 = [] -> EditSessions.pre_along st0 ops ->
+  forall dS,
+  let t := EditSessions.tl_run st0 {| HistoryGeneric.tl := [st0]; HistoryGeneric.c := 0 |} ops in
+  (HistoryGeneric.c state t < length (HistoryGeneric.tl state t))%nat /\
+  obs_eq (run st0 ops) (nth (HistoryGeneric.c state t) (HistoryGeneric.tl state t) dS) /\
+  Forall WF (HistoryGeneric.tl state t) /\
+  (exists ext, HistoryGeneric.tl state t = st0 :: ext).
+Proof. exact EditSessions.session_timeline. Qed.
+
 Example C01_example_run :
   let s1 := step ex0 (OAddEdge 1 2 false) in
   let s2 := step (fst s1) OUndo in
@@ -397,3 +414,4 @@ Print Assumptions C01_consistent_add_edge.
 Print Assumptions C01_consistent_swap.
 Print Assumptions C01_consistent_delete_node.
 Print Assumptions C01_consistent_add_node.
+Print Assumptions C01_sessions.
